@@ -45,8 +45,8 @@ PROPS["C01"] = {
 }
 
 PROPS["C02"] = {
-    "quick": [rapid("TestC02", 60000), plain("TestC02Shapes", shards=4), plain("TestSizeSweep", shards=4), plain("TestProducerConsumerGrid", shards=4)],
-    "thorough": [rapid("TestC02", 600000, shards=16), plain("TestC02Shapes", shards=4), plain("TestSizeSweep", shards=4), plain("TestProducerConsumerGrid", shards=4)],
+    "quick": [rapid("TestC02", 60000), plain("TestC02Shapes", shards=4), plain("TestSizeSweep", shards=4), plain("TestProducerConsumerGrid", shards=4), plain("TestNestedCompositions")],
+    "thorough": [rapid("TestC02", 600000, shards=16), plain("TestC02Shapes", shards=4), plain("TestSizeSweep", shards=4), plain("TestProducerConsumerGrid", shards=4), plain("TestNestedCompositions")],
     "rule": "(a) shape grid: 16 left-hand sides x 18 projection operator chains ([*], .*, [], [?..], slices, two-level combinations) x 18 right-hand sides (null-preserving and not: .k, [0], .type(@), .to_string(@), .not_null(@,1), .[@], .{v:@}, nested projections) x 7 terminators (pipe, paren+index, ||) on 11 documents with empty, heterogeneous, null-containing and nested containers; (b) rapid: G-doc document x document-aware projection-heavy expression ([*], .*, [], [?cond], slices, chained/nested, null-producing and non-null-preserving right-hand sides, functions after projections); oracle: reference evaluator with bag-aware comparison (object-member order free, content exact). Non-trivial: a projection applied its RHS to at least one element (kept or dropped-null), or hit a non-matching LHS, or flattened nested arrays, or a filter rejected an element. Ambiguous cases (order-sensitive use of member lists) are discarded and counted.",
     "assumptions": COMMON_ASSUMPTIONS,
     "min_nontrivial": 1000,
@@ -63,8 +63,8 @@ def prop(pid, quick, thorough, rule, technique, level_text, min_nontrivial=100, 
     PROPS[pid] = d
 
 prop("C03",
-     quick=[plain("TestC03Enum", env={"VERIF_ENUM_LEN": 5}, shards=8), rapid("TestC03Random", 30000), plain("TestC04Runs")],
-     thorough=[plain("TestC03Enum", env={"VERIF_ENUM_LEN": 6}, shards=16), rapid("TestC03Random", 400000, shards=16), plain("TestC04Runs")],
+     quick=[plain("TestC03Enum", env={"VERIF_ENUM_LEN": 5}, shards=8), rapid("TestC03Random", 30000), plain("TestC04Runs"), plain("TestNestedCompositions")],
+     thorough=[plain("TestC03Enum", env={"VERIF_ENUM_LEN": 6}, shards=16), rapid("TestC03Random", 400000, shards=16), plain("TestC04Runs"), plain("TestNestedCompositions")],
      rule="(a) every sentence of the grammar up to the token-length bound (enumerated over a 25-symbol token alphabet, decided by the CFG recogniser) and (b) random CFG sentences up to ~45 tokens: the library's AST (verif hook dump) must equal the reference Pratt parse built from the stated precedence rules; the minimal, fully parenthesised and decorated (redundant parentheses + random whitespace) spellings must all have the same library AST; and all spellings must evaluate like the reference on a document. Non-trivial: the fully parenthesised spelling needs at least one parenthesis pair that the minimal spelling omits (i.e. grouping is decided by precedence/associativity/projection scope). Class histogram = adjacent operator-kind pairs covered.",
      technique="exhaustive small-scope enumeration + random CFG sentences; structural differential vs reference Pratt parser, metamorphic parenthesisation/whitespace relation, semantic cross-check",
      level_text="Equal parse implies equal result on every document, so the 'for all documents' quantifier is discharged structurally through the AST dump hook; the metamorphic layer (minimal vs explicit parentheses) needs no reference parser. Exhaustive up to the length bound (quick 5 tokens, thorough 6), random beyond it.",
@@ -79,40 +79,40 @@ prop("C04",
      min_nontrivial=1000)
 
 prop("C07",
-     quick=[plain("TestC07Exhaustive"), rapid("TestC07Random", 40000), rapid("TestC07Near", 40000), plain("TestC07Depth")],
-     thorough=[plain("TestC07Exhaustive"), rapid("TestC07Random", 400000, shards=8), rapid("TestC07Near", 400000, shards=8), plain("TestC07Depth")],
+     quick=[plain("TestC07Exhaustive"), rapid("TestC07Random", 40000), rapid("TestC07Near", 40000), plain("TestC07Depth"), plain("TestNestedCompositions")],
+     thorough=[plain("TestC07Exhaustive"), rapid("TestC07Random", 400000, shards=8), rapid("TestC07Near", 400000, shards=8), plain("TestC07Depth"), plain("TestNestedCompositions")],
      rule="exhaustive: 36-value universe (incl. objects of equal size with different key sets, null members, reordered arrays, number vs numeric string) (every type, emptiness, nesting) squared x 8 binary operators x 3 carriers (literals, document fields, filter condition), unary not, short-circuit with an erroring right operand, filters over the universe; random: nestings of || && ! and the six comparators (depth <= 6, also inside filters) on G-doc documents; and comparisons between a generated value and a structurally close value (renamed key, null vs missing member, reordered/extended array, number off by one, number vs string) in 5 carriers. Oracle: reference definitions of truthiness, operand-value-returning ||/&&, deep equality, numbers-only ordering. Non-trivial: every exhaustive cell (distinct by carrier, operator, operands); random cases with >= 2 evaluated operators.",
      technique="exhaustive truth tables over a value universe + random operator nestings, differential vs reference evaluator",
      level_text="The operand universe is enumerated completely for every operator and carrier; nestings are explored randomly.",
      min_nontrivial=5000)
 
 prop("C08",
-     quick=[plain("TestC08Golden", shards=4), plain("TestC08NonArray"), plain("TestC08Padded"), rapid("TestC08Random", 40000), rapid("TestC08Pairs", 40000)],
-     thorough=[plain("TestC08Golden", shards=8), plain("TestC08NonArray"), plain("TestC08Padded"), rapid("TestC08Random", 200000, shards=12), rapid("TestC08Pairs", 400000, shards=4)],
+     quick=[plain("TestC08Golden", shards=4), plain("TestC08NonArray"), plain("TestC08Padded"), rapid("TestC08Random", 40000), rapid("TestC08Pairs", 40000), plain("TestNestedCompositions")],
+     thorough=[plain("TestC08Golden", shards=8), plain("TestC08NonArray"), plain("TestC08Padded"), rapid("TestC08Random", 200000, shards=12), rapid("TestC08Pairs", 400000, shards=4), plain("TestNestedCompositions")],
      rule="every (length, start, stop, step) of the committed CPython golden file (lengths 0..8 x {absent} U [-len-2, len+2] cubed = 34,776 triples incl. step 0, and the 15^3 grid of boundary values up to +/-(2^63-1) and -2^63 for lengths 0..4) on six carriers (root array, field, after a projection, with a right-hand side, []float64 and []string typed slices); all non-array values x parameter grid incl. step 0; random lengths <= 200 with random 64-bit parameters against the reference slice model; expressions with two or three slices evaluated side by side, nested or piped (10 forms) against the reference evaluator. Expected element lists come from real Python (golden) / big-integer re-implementation of PySlice_AdjustIndices. Non-trivial: all (distinct by carrier, length, parameters); classes: non-empty, empty, step-0 error, non-array.",
      technique="differential vs CPython slicing (golden file generated by the real Python) and a big-integer reference model; exhaustive window + boundary grid + random",
      level_text="The window and the boundary grid are enumerated completely; larger lengths/parameters randomly.",
      min_nontrivial=10000)
 
 prop("C09",
-     quick=[plain("TestC09Universe"), rapid("TestC09ToNumber", 40000), rapid("TestC09Random", 40000), rapid("TestC09Large", 12000, shards=2), plain("TestSizeSweep", shards=4), plain("TestC09StringSizes")],
-     thorough=[plain("TestC09Universe"), rapid("TestC09ToNumber", 800000, shards=4), rapid("TestC09Random", 400000, shards=8), rapid("TestC09Large", 160000, shards=8), plain("TestSizeSweep", shards=4), plain("TestC09StringSizes")],
+     quick=[plain("TestC09Universe"), rapid("TestC09ToNumber", 40000), rapid("TestC09Random", 40000), rapid("TestC09Large", 12000, shards=2), plain("TestSizeSweep", shards=4), plain("TestC09StringSizes"), plain("TestNestedCompositions")],
+     thorough=[plain("TestC09Universe"), rapid("TestC09ToNumber", 800000, shards=4), rapid("TestC09Random", 400000, shards=8), rapid("TestC09Large", 160000, shards=8), plain("TestSizeSweep", shards=4), plain("TestC09StringSizes"), plain("TestNestedCompositions")],
      rule="(a) each of the 26 functions on every well-typed tuple over a typed universe (numbers incl. -0/1e15, strings incl. multi-byte/astral/number-like/non-finite spellings, number/string/object/mixed arrays with duplicates and ties, objects with colliding keys, 11 expression references); (b) to_number on strings over number-ish characters: finite-or-null, exact for JSON numbers, null for clearly non-numeric; (c) random calls and expressions with calls on G-doc documents and on large arrays (<= 120 objects with many key ties, multi-byte strings); (d) 34 array-function expressions (sort_by/max_by/min_by with number, string, negated and computed keys, sort, max, min, sum, avg, reverse, join, map, nested sorts) on arrays of 0..300 elements with 1..6 distinct keys (heavy ties). Oracle: reference function library (stable insertion sort, first extremal element, code-point string handling, later-wins merge, to_string as 'any JSON text decoding to the argument'), bag-aware for keys/values. Non-trivial: the reference evaluation succeeded and at least one function call was evaluated; per-function success counts are in classes (universe-success.<name>; zero for any function is a harness error).",
      technique="differential vs an independent reference function library: exhaustive typed universe per function + random nested calls",
      level_text="Exact equality with the specification's value, hence ordering, permutation and stability of sort_by, first-extremal of max_by/min_by etc. are checked in both directions at once.",
      min_nontrivial=3000)
 
 prop("C10",
-     quick=[plain("TestC10Matrix", env={"VERIF_C10_ARITY": 3}, shards=4), plain("TestC10ByExprKeys"), plain("TestC10LargeKeys"), rapid("TestC10Random", 40000), plain("TestSizeSweep", shards=4)],
-     thorough=[plain("TestC10Matrix", env={"VERIF_C10_ARITY": 4}, shards=16), plain("TestC10ByExprKeys"), plain("TestC10LargeKeys"), rapid("TestC10Random", 200000, shards=16), plain("TestSizeSweep", shards=4)],
+     quick=[plain("TestC10Matrix", env={"VERIF_C10_ARITY": 3}, shards=4), plain("TestC10ByExprKeys"), plain("TestC10LargeKeys"), rapid("TestC10Random", 40000), plain("TestSizeSweep", shards=4), plain("TestNestedCompositions")],
+     thorough=[plain("TestC10Matrix", env={"VERIF_C10_ARITY": 4}, shards=16), plain("TestC10ByExprKeys"), plain("TestC10LargeKeys"), rapid("TestC10Random", 200000, shards=16), plain("TestSizeSweep", shards=4), plain("TestNestedCompositions")],
      rule="exhaustive matrix: (26 built-ins + 5 unknown names) x arity 0..3 (thorough 0..4) x 13 argument classes per position (null, boolean, number, string, empty/number/string/mixed/nested/object arrays, empty/non-empty object, expression reference), arguments as literals or document fields; by-expression functions x arrays of length 0..3 x 10 key kinds per element incl. an erroring key; arrays of 22/41/61 elements with exactly one invalid or erroring key at every position x 4 key orderings; random ill-typed calls nested in expressions. Oracle: signature table from the specification: ill-typed / wrong arity / unknown => error and nil value, never a panic; well-typed => no error (converse). Non-trivial: the reference evaluation raised a call error or an invalid by-expression key.",
      technique="exhaustive function x arity x argument-class matrix against a reference signature table (error-presence oracle in both directions), plus random nestings",
      level_text="The full matrix is enumerated; error presence must match the specification in both directions.",
      min_nontrivial=10000)
 
 prop("C11",
-     quick=[plain("TestC11Exhaustive"), plain("TestC11LargeKeys"), plain("TestC11Typed"), plain("TestC11Positions"), rapid("TestC11Random", 40000), plain("TestSizeSweep", shards=4)],
-     thorough=[plain("TestC11Exhaustive", env={"VERIF_C11_PAIRS": 1}, shards=8), plain("TestC11LargeKeys"), plain("TestC11Typed"), plain("TestC11Positions"), rapid("TestC11Random", 400000, shards=16), plain("TestSizeSweep", shards=4)],
+     quick=[plain("TestC11Exhaustive"), plain("TestC11LargeKeys"), plain("TestC11Typed"), plain("TestC11Positions"), plain("TestNestedCompositions"), plain("TestC11Triples", shards=4), rapid("TestC11Random", 40000), plain("TestSizeSweep", shards=4)],
+     thorough=[plain("TestC11Exhaustive", env={"VERIF_C11_PAIRS": 1}, shards=8), plain("TestC11LargeKeys"), plain("TestC11Typed"), plain("TestC11Positions"), plain("TestNestedCompositions"), plain("TestC11Triples", shards=4), rapid("TestC11Random", 400000, shards=16), plain("TestSizeSweep", shards=4)],
      rule="10 erroring seeds (invalid type, arity, unknown function, zero step, inconsistent/bad key, variadic type, expref as value, nested) x 40 strict context constructors (every operator side, projection kind incl. left operands and right-hand sides, filter condition, function argument positions, expression-reference bodies, multi-select members, pipes) exhaustively (thorough: all ordered pairs), every binary operator with an operand of each of the 36 universe values on the other side of the seed (4 carriers; the reference model decides whether the seed must be evaluated), by-expression functions on arrays of 22/41/61 elements with one erroring key at every position (errors raised inside sort comparators), 11 non-strict controls (short-circuit, empty/non-matching projections, multi-select on null), and random stacks of depth 1..6 incl. document-dependent seeds. Oracle: metamorphic (Search(E) errors => Search(C[E]) errors and returns nil) for stacks that guarantee evaluation, and differential vs the reference evaluator for all. Non-trivial: a strict stack whose seed errors.",
      technique="metamorphic error-preservation under strict evaluation contexts + differential vs reference evaluator; exhaustive singles/pairs, random stacks",
      level_text="All single contexts (thorough: pairs) are enumerated; deeper nestings randomly.",
@@ -131,16 +131,16 @@ prop("C05",
      assumptions=["native fuzzing cannot be pinned to VERIF_SEED; its reproducible unit is the saved input (replay file)", "the watchdog (20 s, >= 10^4 x the normal cost), the allocation envelope and the CPU-time growth rule (24x for 8x size, above 1 s of thread CPU) are generous bounds, not tight ones"])
 
 prop("C06",
-     quick=[rapid("TestC06", 15000, shards=4), plain("TestSizeSweep", shards=4), plain("TestProducerConsumerGrid", shards=4)],
-     thorough=[rapid("TestC06", 400000, shards=16), rapid("TestC12", 6000, shards=4, race=True, env={"VERIF_C12_MODE": "reader"}), plain("TestSizeSweep", shards=4), plain("TestProducerConsumerGrid", shards=4)],
+     quick=[rapid("TestC06", 15000, shards=4), plain("TestSizeSweep", shards=4), plain("TestProducerConsumerGrid", shards=4), plain("TestNestedCompositions")],
+     thorough=[rapid("TestC06", 400000, shards=16), rapid("TestC12", 6000, shards=4, race=True, env={"VERIF_C12_MODE": "reader"}), plain("TestSizeSweep", shards=4), plain("TestProducerConsumerGrid", shards=4), plain("TestNestedCompositions")],
      rule="rapid: (a) 35 templates applying every reordering/combining function (sort_by, sort, reverse, merge, to_array, map, max_by, flatten, slices, pipes) to documents whose arrays are visibly unsorted, optionally wrapped in a strict context, with a poisoned last key so that by-expression functions fail after partial work; (b) document-aware all-function expressions on those documents; (c) on G-doc documents. The document is rebuilt so that every array has hidden spare capacity filled with sentinels. Oracle: deep snapshot before == after (array order included) and sentinel tails intact, after the one-shot Search and after Compile+Search, on success and on error paths; thorough additionally runs searches under the race detector while another goroutine deep-reads the same document. Non-trivial: the reference evaluation shows that a function call or projection was evaluated (classes list call.<function>, path.success / path.error).",
      technique="invariant over generated (expression, document) pairs: deep snapshot equality + spare-capacity sentinels; race detector with a concurrent reader (thorough)",
      level_text="A write that restores the old value is invisible to a snapshot; the thorough tier's concurrent reader under -race covers it.",
      min_nontrivial=3000)
 
 prop("C12",
-     quick=[rapid("TestC12", 1000, shards=4, race=True, gomaxprocs=4), plain("TestC12Representation", shards=4, race=True, gomaxprocs=4)],
-     thorough=[rapid("TestC12", 12000, shards=8, race=True, gomaxprocs=4), rapid("TestC12", 6000, shards=4, race=True, gomaxprocs=2), rapid("TestC12", 6000, shards=4, race=True, gomaxprocs=16), plain("TestC12Representation", shards=4, race=True, gomaxprocs=4)],
+     quick=[rapid("TestC12", 1000, shards=4, race=True, gomaxprocs=4), plain("TestC12Representation", shards=4, race=True, gomaxprocs=4), plain("TestNestedCompositions", race=True, gomaxprocs=4)],
+     thorough=[rapid("TestC12", 12000, shards=8, race=True, gomaxprocs=4), rapid("TestC12", 6000, shards=4, race=True, gomaxprocs=2), rapid("TestC12", 6000, shards=4, race=True, gomaxprocs=16), plain("TestC12Representation", shards=4, race=True, gomaxprocs=4), plain("TestNestedCompositions", race=True, gomaxprocs=4)],
      rule="rapid cases (expression, document) from three sources (expressions whose literals are shared by the compiled AST and flow into sort_by/reverse/merge; the C06 templates on unsorted documents; document-aware all-function expressions) plus expressions over a Go struct document (reflection paths; mode 'struct': results compared with the sequential call) x 5 modes (one compiled expression + one shared document; + private documents that differ per goroutine (arrays doubled / truncated; expected result per variant from the reference model); one-shot Search from all goroutines; mixed with concurrent Compile of other expressions; with a concurrent deep reader of the document): 8 goroutines x 20 iterations released by a barrier, binary built with -race (GORACE=halt_on_error: a report fails the run and is attributed to the running case through a breadcrumb file). Oracle: no race report; every goroutine's result equals the sequential result (bag-aware) which equals the reference model; the shared document is unchanged. Non-trivial: at least two goroutines overlapped and the expression reaches a function or projection.",
      technique="concurrent execution of generated cases under the Go race detector + per-goroutine result = sequential result = reference model",
      level_text="The race detector is happens-before based, so coverage is driven by which code paths run concurrently (controlled by the generator) rather than by timing luck; an atomicity violation without a data race is found only if it changes a result in an explored run. The harness does not own the scheduler: reduced strength, see DESIGN.md section 10.",
@@ -148,8 +148,8 @@ prop("C12",
      assumptions=["schedules are not enumerated: the Go scheduler is not controlled by the harness", "a schedule-dependent failure is replayed by re-running the case 200 times under -race"])
 
 prop("C13",
-     quick=[rapid("TestC13", 1500, shards=4), rapid("TestC13Structs", 12000, shards=2), plain("TestProducerConsumerGrid", shards=4), plain("TestC13Representation"), plain("TestC13Endurance"), plain("TestC10Matrix", env={"VERIF_C10_ARITY": 2}, shards=2)],
-     thorough=[rapid("TestC13", 40000, shards=14, timeout="2h"), rapid("TestC13Structs", 200000, shards=2), plain("TestProducerConsumerGrid", shards=4), plain("TestC13Representation"), plain("TestC13Endurance"), plain("TestC10Matrix", env={"VERIF_C10_ARITY": 2}, shards=2)],
+     quick=[rapid("TestC13", 1500, shards=4), rapid("TestC13Structs", 12000, shards=2), plain("TestProducerConsumerGrid", shards=4), plain("TestNestedCompositions"), plain("TestC13Representation"), plain("TestC13Endurance"), plain("TestC10Matrix", env={"VERIF_C10_ARITY": 2}, shards=2)],
+     thorough=[rapid("TestC13", 40000, shards=14, timeout="2h"), rapid("TestC13Structs", 200000, shards=2), plain("TestProducerConsumerGrid", shards=4), plain("TestNestedCompositions"), plain("TestC13Representation"), plain("TestC13Endurance"), plain("TestC10Matrix", env={"VERIF_C10_ARITY": 2}, shards=2)],
      rule="rapid state machine (t.Repeat): state = pool of <= 6 compiled expressions (literal-sharing expressions, reorder templates, document-aware all-function expressions), pool of <= 6 documents (live objects), one long-lived Parser; actions compile / add document / search(i,j) / repeat / one-shot / parse valid / parse invalid (unclosed raw strings after an escaped quote, bad escapes, every parser error site, random bytes) / parse long-then-short; invariant after every step: every pool document deep-equals its original. Model: each search equals a freshly compiled expression on a deep copy of the original document, the one-shot Search, and the reference model (bag-aware); each reused-parser Parse equals NewParser().Parse (AST dump, error text, SyntaxError fields). Additionally (TestC13Structs): one compiled navigational expression searched twice round over 2-4 documents of different run-time generated struct types must agree with the one-shot Search every time. Non-trivial: a history with >= 2 searches on one compiled expression where an earlier one failed or used another document, or a valid parse after an invalid one on the reused Parser. Distinct by hash of the action trace.",
      technique="stateful model-based testing (rapid state machine) against the model 'fresh Compile / fresh Parser per call' and the reference evaluator",
      level_text="Histories are explored randomly and shrink as one value; the replay file is the action trace.",
@@ -164,16 +164,16 @@ prop("C14",
      min_nontrivial=10000)
 
 prop("C15",
-     quick=[rapid("TestC15Pipe", 40000), rapid("TestC15Subst", 40000), plain("TestC15Shapes", shards=6), plain("TestC15Structs"), plain("TestC15Sizes"), plain("TestProducerConsumerGrid", shards=4)],
-     thorough=[rapid("TestC15Pipe", 400000, shards=8), rapid("TestC15Subst", 400000, shards=8), plain("TestC15Shapes", shards=6), plain("TestC15Structs"), plain("TestC15Sizes"), plain("TestProducerConsumerGrid", shards=4)],
+     quick=[rapid("TestC15Pipe", 40000), rapid("TestC15Subst", 40000), plain("TestC15Shapes", shards=6), plain("TestC15Structs"), plain("TestC15Sizes"), plain("TestProducerConsumerGrid", shards=4), plain("TestNestedCompositions")],
+     thorough=[rapid("TestC15Pipe", 400000, shards=8), rapid("TestC15Subst", 400000, shards=8), plain("TestC15Shapes", shards=6), plain("TestC15Structs"), plain("TestC15Sizes"), plain("TestProducerConsumerGrid", shards=4), plain("TestNestedCompositions")],
      rule="rapid: (a) pairs (A, B), B generated against the value of A: Search('(A) | (B)', d) vs Search(B, Search(A, d)): equal values, error exactly when a step errors; (b) sub-expression S in one of 26 root-evaluated contexts C (pipe left, ||/&& operands, multi-select members, function arguments, comparator operands, projection left-hand sides, ...): Search(C[S], d) vs Search(C[literal(Search(S, d))], d). (c) shape grid: every projection-shape expression A (16 left-hand sides x 18 projection operator chains x 18 right-hand sides) piped into 20 short right-hand sides B ([0], [-1], length(@), [?@], type(@), ...) on 11 documents with null-producing elements. (d) the pipe law on a Go struct document (typed slices, pointers) with type-sensitive right-hand sides (sort, max, join, sum, ==). The library is compared with itself; the reference model only supplies the ambiguity verdict and the bag structure for order-insensitive comparison. Non-trivial: A non-identity with non-null result and B not a literal; S not already a literal.",
      technique="algebraic laws checked on the library itself (metamorphic): pipe splitting and literal substitution",
      level_text="Metamorphic relations over generated expressions and documents; no expected answers needed.",
      min_nontrivial=3000)
 
 prop("C16",
-     quick=[rapid("TestC16", 20000, shards=4), plain("TestSizeSweep", shards=4), plain("TestProducerConsumerGrid", shards=4)],
-     thorough=[rapid("TestC16", 600000, shards=16), plain("TestSizeSweep", shards=4), plain("TestProducerConsumerGrid", shards=4)],
+     quick=[rapid("TestC16", 20000, shards=4), plain("TestSizeSweep", shards=4), plain("TestProducerConsumerGrid", shards=4), plain("TestNestedCompositions")],
+     thorough=[rapid("TestC16", 600000, shards=16), plain("TestSizeSweep", shards=4), plain("TestProducerConsumerGrid", shards=4), plain("TestNestedCompositions")],
      rule="rapid: G-doc documents (numbers |x| <= 1e15) x (a) every function with closure-threatening arguments (empty arrays/objects/strings, 'inf', 'nan', 'Infinity', '1e999', '0x1p4', empty projections/slices) in 5 contexts, (b) document-aware all-function expressions. Precondition: the expression is a sentence of the strict grammar (expression references only as function arguments). Oracle (validity predicate): on success the result consists only of nil, bool, finite float64, string, non-nil []interface{} and non-nil map[string]interface{}, json.Marshal succeeds and json.Unmarshal of the text deep-equals the result. Non-trivial: Search succeeded with a non-null result; classes: result type, top-level node, top-level function.",
      technique="validity predicate (type walk + JSON marshal/unmarshal round trip) over generated expressions",
      level_text="Closure is a predicate on every reachable result; no reference needed.",
